@@ -174,7 +174,7 @@ int main(int argc, char** argv) {
       if (setjmp(jb) == 0) { @M@Instantiate(&insts[k], resolve); fprintf(OUT, "%d I %d ok\n", step, k); }
       else fprintf(OUT, "%d I %d fail:%s\n", step, k, trapName(trapCode));
       break; }
-    case 'c': { U64 a[32]; int i; for (i = 3; i < nt; i++) a[i - 3] = strtoull(tok[i], NULL, 0); doCall(step, atoi(tok[1]), atoi(tok[2]), a, nt - 3); break; }
+    case 'c': { U64 a[256]; int i; if (nt - 3 > 256) { fprintf(stderr, "driver: too many call arguments\n"); return 2; } for (i = 3; i < nt; i++) a[i - 3] = strtoull(tok[i], NULL, 0); doCall(step, atoi(tok[1]), atoi(tok[2]), a, nt - 3); break; }
     case 'x': { int inst = atoi(tok[1]), fk = atoi(tok[2]), ns = nt - 3, idx[8] = {0}, s[8], i, k; U64 a[8];
       for (i = 0; i < ns; i++) s[i] = atoi(tok[3 + i]);
       if (ns == 0) { doCall(step, inst, fk, a, 0); break; }
